@@ -517,7 +517,7 @@ def run(ctx):
     for adt, fld in (('runtime_scope::RuntimeScopeTemplate', 'id'),):
         for b, bb, j, mode, p in mirq.field_accesses(mir, adt, fld):
             # reads must feed an equality comparison
-            okr = b.nid in ID_READERS_OK
+            okr = mode == 'r'      # any body may look at an id, as long as the only thing it does with it is an equality test
             if okr and j is not None:
                 s = b.blocks[bb]['stmts'][j]
                 tgt = s['place']['l']
